@@ -1,5 +1,6 @@
 import GV.Model.Cell
 import GV.Spec.Json
+import GV.Spec.JsonWF
 import GV.Lemmas.Dec
 import GV.Lemmas.C11
 /- helper lemmas for GV/Props/C14.lean
@@ -1027,21 +1028,61 @@ theorem doc_data {P : W.JDoc → Prop} (hP : WFSpec P) (E : Ext) (d : W.JDoc) (h
   rw [printJSONData_jsonb]
   simpa using doc_ok hP E d hwf _ [] true (by omega)
 
-/-- through the cell decoder -/
+/-- through the cell decoder: a JSON cell with any of the four length-prefix widths, at any position of the buffer —
+    `cellLength` skips exactly the cell, `cellBytes` delivers the document's text and consumes exactly the cell -/
+theorem cell_json_at (E : Ext) (pre b rest : Bytes) (t : Bytes) (md : Nat) (u : Bool) (h1 : 1 ≤ md) (h4 : md ≤ 4)
+    (hl : b.length < 256 ^ md) (h : printJSONData E b = .ok t) :
+    cellLength (pre ++ (ofLE md b.length ++ b ++ rest)) pre.length 245 md = .ok (md + b.length) ∧
+    cellBytes E (pre ++ (ofLE md b.length ++ b ++ rest)) pre.length 245 md u = .ok (t, md + b.length) := by
+  have hmd : md = 1 ∨ md = 2 ∨ md = 3 ∨ md = 4 := by omega
+  rw [List.append_assoc]
+  have hb : blobLen (pre ++ (ofLE md b.length ++ (b ++ rest))) pre.length md = .ok b.length := by
+    rw [blobLen, if_pos hmd, leIdx_at, Nat.mod_eq_of_lt hl]
+  have hs : Bytes.slice (pre ++ (ofLE md b.length ++ (b ++ rest))) (pre.length + md) (pre.length + md + b.length) = .ok b := by
+    have := slice_mid (pre ++ ofLE md b.length) b rest
+    simpa [List.append_assoc] using this
+  refine ⟨?_, ?_⟩
+  · unfold cellLength
+    have hlk : lookup Facts.cellLengthFixed 245 = none := by decide
+    simp only [hlk, hb]
+    simp
+  · unfold cellBytes
+    simp only [hb, Res.ok_bind, hs, h]
+    simp [Nat.add_comm]
+
+/-- the same at the head of the buffer, four length bytes -/
 theorem cell_json (E : Ext) (b rest : Bytes) (t : Bytes) (u : Bool) (hl : b.length < 2 ^ 32)
     (h : printJSONData E b = .ok t) :
     cellBytes E (ofLE 4 b.length ++ b ++ rest) 0 245 4 u = .ok (t, 4 + b.length) := by
-  have h1 : blobLen (ofLE 4 b.length ++ (b ++ rest)) 0 4 = .ok b.length := by
-    have := leIdx_at [] (b ++ rest) 4 b.length
-    simp only [List.nil_append, List.length_nil] at this
-    simp only [blobLen, this]
-    simp
-    omega
-  have h2 : Bytes.slice (ofLE 4 b.length ++ (b ++ rest)) 4 (b.length + 4) = .ok b := by
-    have := slice_mid (ofLE 4 b.length) b rest
-    simpa [Nat.add_comm] using this
-  unfold cellBytes
-  simp [h1, h2, h, Nat.add_comm]
+  have := (cell_json_at E [] b rest t 4 u (by omega) (by omega) (by omega) h).2
+  simpa using this
+
+/-! ### documents without DOUBLE scalars: the text does not depend on the float formatter -/
+
+mutual
+theorem render_noDbl (f g : Nat → Bytes) (top : Bool) : ∀ d : W.JDoc, W.NoDbl d → W.render f top d = W.render g top d
+  | .obj _ kvs, h => by
+      simp only [W.NoDbl] at h
+      simp only [W.render, renderKVs_noDbl f g true kvs h]
+  | .arr _ vs, h => by
+      simp only [W.NoDbl] at h
+      simp only [W.render, renderVals_noDbl f g true vs h]
+  | .dbl _, h => by simp [W.NoDbl] at h
+  | .lit _, _ | .i16 _, _ | .u16 _, _ | .i32 _, _ | .u32 _, _ | .i64 _, _ | .u64 _, _ | .str _, _
+  | .odate .., _ | .otime .., _ | .odatetime .., _ | .odecimal .., _ => by simp only [W.render]
+theorem renderVals_noDbl (f g : Nat → Bytes) (first : Bool) :
+    ∀ vs : List W.JDoc, W.NoDblVals vs → W.renderVals f first vs = W.renderVals g first vs
+  | [], _ => by simp only [W.renderVals]
+  | d :: ds, h => by
+      simp only [W.NoDblVals] at h
+      simp only [W.renderVals, render_noDbl f g false d h.1, renderVals_noDbl f g false ds h.2]
+theorem renderKVs_noDbl (f g : Nat → Bytes) (first : Bool) :
+    ∀ kvs : List (Bytes × W.JDoc), W.NoDblKVs kvs → W.renderKVs f first kvs = W.renderKVs g first kvs
+  | [], _ => by simp only [W.renderKVs]
+  | (_, d) :: rest, h => by
+      simp only [W.NoDblKVs] at h
+      simp only [W.renderKVs, render_noDbl f g false d h.1, renderKVs_noDbl f g false rest h.2]
+end
 
 end C14
 end GV
